@@ -76,7 +76,7 @@ def ext_value(req, params, mal=None):
     return x
 
 
-def build_doc(site, req, params, mal):
+def build_doc(site, req, params, mal, params2=None):
     thing = {"type": "object", "properties": {MARKER: {"type": "string"}}, "required": [MARKER], "x-rust-type": ext_value(req, params, mal)}
     defs = {"Gizmo": {"type": "object", "properties": {"g": {"type": "integer"}}},
             "GizmoX": {"type": "object", "properties": {"gx": {"type": "integer"}},
@@ -95,10 +95,21 @@ def build_doc(site, req, params, mal):
         defs["User"] = {"type": "object", "properties": {"m": {"type": "array", "items": {"$ref": "#/definitions/Thing"}}}, "required": ["m"]}
     elif site == "inline":
         defs["User"] = {"type": "object", "properties": {"m": thing}, "required": ["m"]}
+    elif site in ("inline2", "def_inline", "vec_inline"):
+        # the same external path used twice in one type space with DIFFERENT parameter lists
+        thing2 = {"type": "object", "properties": {MARKER: {"type": "string"}}, "required": [MARKER], "x-rust-type": ext_value(req, params2, None)}
+        if site == "inline2":
+            first = thing
+        elif site == "def_inline":
+            defs["Thing"] = thing
+            first = {"$ref": "#/definitions/Thing"}
+        else:
+            first = {"type": "array", "items": thing}
+        defs["User"] = {"type": "object", "properties": {"m": first, "n": thing2}, "required": ["m", "n"]}
     return {"definitions": defs}
 
 
-def mk(cfg, policy, pair, rename, params, site, mal=None):
+def mk(cfg, policy, pair, rename, params, site, mal=None, params2=None):
     req, ver, sat = pair
     settings = {"unknown_crates": policy}
     if cfg != "absent":
@@ -107,7 +118,7 @@ def mk(cfg, policy, pair, rename, params, site, mal=None):
             spec["rename"] = rename
         settings["crates"] = {CRATE: spec}
     c = {"family": "table", "cfg": cfg, "policy": policy, "req": req, "ver": ver, "sat": sat, "rename": rename if cfg != "absent" else None,
-         "params": params, "site": site, "mal": mal, "settings": settings, "doc": build_doc(site, req, params, mal)}
+         "params": params, "params2": params2, "site": site, "mal": mal, "settings": settings, "doc": build_doc(site, req, params, mal, params2)}
     c["key"] = key_of([c["settings"], c["doc"]])
     return c
 
@@ -125,6 +136,15 @@ def cases(tier, seed):
                     for params in PARAMS:
                         for site in SITES:
                             add(mk(cfg, policy, pair, rename, params, site))
+    # two uses of one path with different parameter lists (every ordered pair of parameter forms)
+    for cfg in ("any", "never", "absent"):
+        for policy in ("allow", "deny"):
+            for rename in ((None, "other") if cfg != "absent" else (None,)):
+                for pa in PARAMS:
+                    for pb in PARAMS:
+                        if pa != pb:
+                            for site in ("inline2", "def_inline", "vec_inline"):
+                                add(mk(cfg, policy, ("^1.2.3", "1.2.4", T), rename, pa, site, None, pb))
     # malformed extensions: generated from the schema whatever the settings
     for mal in MALFORMED:
         for cfg in CFGS:
@@ -134,9 +154,10 @@ def cases(tier, seed):
     return list(out.values())
 
 
-def expected_path(c):
+def expected_path(c, which="params"):
     first = (c["rename"].replace("-", "_") if c["rename"] else IDENT)
     p = "::" + first + "::sub::Thing"
+    c = dict(c, params=c[which])
     if c["params"] == "1i":
         p += "<::std::string::String>"
     elif c["params"] == "1r":
@@ -181,7 +202,7 @@ def execute(cases_, tier, seed):
         res.states += 1
         res.transitions += 1
         res.nontrivial += 1
-        feats = {k: c[k] for k in ("cfg", "policy", "req", "ver", "rename", "params", "site", "mal")}
+        feats = {k: c.get(k) for k in ("cfg", "policy", "req", "ver", "rename", "params", "params2", "site", "mal")}
         op = (a.get("ops") or [{}])[0]
         if a.get("abort") or op.get("status") != "ok" or (a.get("render") or {}).get("status") != "ok":
             res.violations.append(Violation(c["key"], "ingest-failed", "x-rust-type case failed to ingest/render: %s" % (op,), c,
@@ -225,6 +246,20 @@ def execute(cases_, tier, seed):
             if probs:
                 res.violations.append(Violation(c["key"], "not-substituted" if final != exp and structural else "wrong-substitution",
                                                 "; ".join(probs), c, expected={"path": exp, "no_structure": True}, observed=obs, features=feats))
+            if c.get("params2") and user and len(user["props"]) > 1:
+                t2 = types.get(user["props"][1]["type_id"])
+                for _ in range(4):
+                    if t2["kind"] == "vec":
+                        t2 = types[t2["child"]]
+                    elif t2["kind"] == "newtype":
+                        t2 = types[t2["inner"]]
+                    else:
+                        break
+                final2 = t2["ident"].replace(" ", "").replace(",>", ">") if t2["kind"] == "builtin" else t2["kind"] + ":" + t2.get("name", "")
+                exp2 = expected_path(c, "params2")
+                if final2 != exp2:
+                    res.violations.append(Violation(c["key"], "wrong-substitution", "second use of the path stands for %s, expected %s (first use: %s)" % (final2, exp2, final), c,
+                                                    expected={"path": exp2}, observed=dict(obs, second=final2), features=feats))
         else:
             probs = []
             if not structural:
